@@ -511,6 +511,27 @@ func c10Run(ctx *Ctx, c c10Case) {
 		}
 	case "extension":
 		urls := []string{"http://example.org/a", "http://example.org/b", "http://hl7.org/fhir/StructureDefinition/ext-1", "http://example.org/none"}
+		// the urls actually present, and near misses of them (other case, a prefix, a trailing slash)
+		seenURL := map[string]bool{}
+		for _, u := range urls {
+			seenURL[u] = true
+		}
+		for _, it := range e.items {
+			if ex, ok := it.(fhir.Extendable); ok {
+				for _, x := range ex.GetExtension() {
+					u := x.GetUrl().GetValue()
+					if u == "" || strings.ContainsAny(u, "'\\") || len(seenURL) > 24 {
+						continue
+					}
+					for _, v := range []string{u, strings.ToUpper(u), strings.ToLower(u), u[:len(u)-1], u + "/", strings.ToUpper(u[:1]) + u[1:]} {
+						if !seenURL[v] && v != "" {
+							seenURL[v] = true
+							urls = append(urls, v)
+						}
+					}
+				}
+			}
+		}
 		for _, u := range urls {
 			var want []any
 			applicable := true
